@@ -81,6 +81,21 @@ theorem area_tiles {w h : Nat} (hw : w % 8 = 0) (hh : h % 8 = 0) : w * h = 64 * 
 
 /-- A texture of the property's domain: the library computes its payload size exactly, and the
 payload decodes (in both profiles). -/
+theorem valid3ds_pos (t : Tex) (h : valid3ds t = true) : 0 < t.payload.size := by
+  unfold valid3ds at h
+  cases hb : bitsPerPixel t.format with
+  | none => simp [hb] at h
+  | some bits =>
+    simp only [hb, Bool.and_eq_true, decide_eq_true_eq, beq_iff_eq] at h
+    obtain ⟨⟨⟨⟨hw, hh⟩, _⟩, _⟩, hsz⟩ := h
+    have hbits : 0 < bits := by
+      unfold bitsPerPixel at hb
+      split at hb <;> simp_all <;> omega
+    simp only [isPow2From8, Bool.and_eq_true, decide_eq_true_eq] at hw hh
+    have : 0 < bits * t.width * t.height :=
+      Nat.mul_pos (Nat.mul_pos hbits (by omega)) (by omega)
+    omega
+
 theorem valid3ds_decodes (p : Profile) (t : Tex) (h : valid3ds t = true) :
     payloadSize t.format t.width t.height = t.payload.size ∧
     ∃ b, decodePixelData p t.payload t.width t.height t.format = .ok b := by
@@ -133,5 +148,60 @@ theorem valid3ds_decodes (p : Profile) (t : Tex) (h : valid3ds t = true) :
         etc false (Or.inl hf) (by simp [hf]) (by simp only [Etc1.blockBytes]; simp; omega)⟩
     · refine ⟨by simp only [payloadSize, hf, bppTimes2]; rw [Nat.mul_assoc]; omega,
         etc true (Or.inr hf) (by simp [hf]) (by simp only [Etc1.blockBytes]; simp; omega)⟩
+
+
+/-- The pixels the library's decoder makes of a packed 3DS texture's own payload. -/
+def pixelsOf (p : Profile) (t : Tex) : Buf :=
+  match decodePixelData p t.payload t.width t.height t.format with
+  | .ok b => b
+  | _ => #[]
+
+/-- The texture a reader must return for a packed 3DS texture. -/
+def unpack (p : Profile) (t : Tex) : Texture := ⟨t.name, t.width, t.height, pixelsOf p t⟩
+
+/-- The pixels of a packed CI8 image (TPL). -/
+def pixelsOfTpl (t : Tex) : Buf :=
+  match tplDecodeImage 2 t.palette 9 t.height t.width t.payload with
+  | .ok b => b
+  | _ => #[]
+
+def unpackTpl (t : Tex) : Texture := ⟨[], t.width, t.height, pixelsOfTpl t⟩
+
+theorem allIdx_spec {α : Type} (P : Nat → α → Bool) :
+    ∀ (xs : List α) (k : Nat), allIdx P k xs = true → ∀ i x, xs[i]? = some x → P (k + i) x = true := by
+  intro xs
+  induction xs with
+  | nil => intro k _ i x h; simp at h
+  | cons y ys ih =>
+    intro k h i x hx
+    simp only [allIdx, Bool.and_eq_true] at h
+    cases i with
+    | zero => simp at hx; subst hx; simpa using h.1
+    | succ j =>
+      simp at hx
+      have := ih (k + 1) h.2 j x hx
+      have e : k + 1 + j = k + (j + 1) := by omega
+      rw [e] at this; exact this
+
+/-- Pairing the logged names with the decoded textures gives the expected list. -/
+theorem assemble_eq (texs : List Tex) (raws : List Raw) (want : Tex → Texture)
+    (hlen : raws.length = texs.length)
+    (hraw : ∀ (i : Nat) (r : Raw) (t : Tex), raws[i]? = some r → texs[i]? = some t →
+      r = ((want t).width, (want t).height, (want t).pixels)) :
+    assemble ((List.range texs.length).map (fun i => ((texs.map want).getD i ⟨[], 0, 0, #[]⟩).name)) raws =
+      texs.map want := by
+  apply List.ext_getElem?
+  intro i
+  simp only [assemble, List.getElem?_zipWith, List.getElem?_map, List.getElem?_range]
+  by_cases hi : i < texs.length
+  · have hr : i < raws.length := by omega
+    have ht : texs[i]? = some texs[i] := List.getElem?_eq_getElem hi
+    have hrr : raws[i]? = some raws[i] := List.getElem?_eq_getElem hr
+    have := hraw i _ _ hrr ht
+    simp [hi, hr, ht, List.getD_eq_getElem?_getD, this]
+  · have hr : ¬ i < raws.length := by omega
+    have h1 : texs[i]? = none := by simp; omega
+    have h2 : raws[i]? = none := by simp; omega
+    simp [hi, h1, h2]
 
 end Mila.Containers
